@@ -57,57 +57,57 @@ theorem cmp_jump (code : Code) (op : Op) (hop : IsRel op) (p : Pos) (target : Na
   | inexact => trivial
 
 /-- the head of one FOR round: label, `CopyCToB`, load the counter, compare, branch, `PushRegisters` -/
-def forHeadCode (lbl : String) (x : Nat) (t : Ty) (op : Op) (p : Pos) (outOff : Nat) : Code :=
+def forHeadCode (lbl : String) (x : Var) (t : Ty) (op : Op) (p : Pos) (outOff : Nat) : Code :=
   [(CInstr.label lbl, p), (CInstr.copyCToB, p)] ++ loadVar x t p ++
     [(CInstr.bin op, p), (CInstr.jumpIfFalse outOff, p), (CInstr.pushRegs, p)]
 
 /-- the tail of one FOR round: `PopRegisters`, counter := cast (counter + D), jump back -/
-def forTailCode (x : Nat) (t : Ty) (p : Pos) (bo : Nat) : Code :=
+def forTailCode (x : Var) (t : Ty) (p : Pos) (bo : Nat) : Code :=
   [(CInstr.popRegs, p)] ++ loadVar x t p ++ [(CInstr.copyDToB, p), (CInstr.bin .plus, p), (CInstr.cast t, p)] ++
     storeVar x t p ++ [(CInstr.jump bo, p)]
 
-theorem forBody_split (sfx : String) (x : Nat) (t : Ty) (bc : Code) (up : Bool) (p : Pos) (bo outOff : Nat) :
+theorem forBody_split (sfx : String) (x : Var) (t : Ty) (bc : Code) (up : Bool) (p : Pos) (bo outOff : Nat) :
     forBody sfx x t bc up p bo outOff =
       forHeadCode (labelName (if up then "positive-loop" else "negative-loop") p sfx) x t
         (if up then .lessOrEqual else .greaterOrEqual) p outOff ++ (bc ++ forTailCode x t p bo) := by
   simp [forBody, forHeadCode, forTailCode, loadVar, storeVar]
 
-theorem for_head (code : Code) (sc : Scope) (pre below : List CtxState) (s : St) (lbl : String) (x : Nat) (t : Ty)
+theorem for_head (W : World) (sc : Scope) (pre below : List CtxState) (s : St) (lbl : String) (x : Var) (t : Ty)
     (op : Op) (hop : IsRel op) (p : Pos) (bo outOff : Nat) (h sv : Val) (σ : Vm)
-    (hc : CodeAt code bo (forHeadCode lbl x t op p outOff)) (hpc : σ.pc = bo) (hC : σ.regs.c = h) (hD : σ.regs.d = sv)
-    (hr : Rel sc pre below s σ) (hx : sc.slots[x]? = some t) :
-    match tryCmp (s.env.getD x (zeroOf t)) h with
+    (hc : CodeAt W.code bo (forHeadCode lbl x t op p outOff)) (hpc : σ.pc = bo) (hC : σ.regs.c = h) (hD : σ.regs.d = sv)
+    (hr : Rel W sc pre below s σ) (hx : sc.slots.get? x = some t) :
+    match tryCmp (s.get x t) h with
     | .ok o =>
       if relHolds op o then
-        ∃ a, Steps code σ { σ with pc := bo + 8, regs := Regs.new, regStack := ⟨a, h, h, sv⟩ :: σ.regStack }
-      else ∃ a, Steps code σ { σ with pc := outOff, regs := ⟨a, h, h, sv⟩ }
-    | .err e => ErrsWith code σ (Vm.codeOf e) p σ.out
+        ∃ a, Steps W.code σ { σ with pc := bo + 8, regs := Regs.new, regStack := ⟨a, h, h, sv⟩ :: σ.regStack }
+      else ∃ a, Steps W.code σ { σ with pc := outOff, regs := ⟨a, h, h, sv⟩ }
+    | .err e => ErrsWith W.code σ (Vm.codeOf e) p σ.out
     | .inexact => True := by
   subst hpc
   subst hC
   subst hD
   simp only [forHeadCode] at hc
-  have h0 : code[σ.pc]? = some (CInstr.label lbl, p) := hc.append_left.append_left.head
-  have h1 : code[σ.pc + 1]? = some (CInstr.copyCToB, p) := hc.append_left.append_left.tail.head
-  have hl : CodeAt code (σ.pc + 2) (loadVar x t p) := hc.append_left.append_right
-  have hcj : CodeAt code (σ.pc + 5) [(CInstr.bin op, p), (CInstr.jumpIfFalse outOff, p), (CInstr.pushRegs, p)] :=
+  have h0 : W.code[σ.pc]? = some (CInstr.label lbl, p) := hc.append_left.append_left.head
+  have h1 : W.code[σ.pc + 1]? = some (CInstr.copyCToB, p) := hc.append_left.append_left.tail.head
+  have hl : CodeAt W.code (σ.pc + 2) (loadVar x t p) := hc.append_left.append_right
+  have hcj : CodeAt W.code (σ.pc + 5) [(CInstr.bin op, p), (CInstr.jumpIfFalse outOff, p), (CInstr.pushRegs, p)] :=
     hc.append_right
-  have hcj2 : CodeAt code (σ.pc + 5) [(CInstr.bin op, p), (CInstr.jumpIfFalse outOff, p)] :=
+  have hcj2 : CodeAt W.code (σ.pc + 5) [(CInstr.bin op, p), (CInstr.jumpIfFalse outOff, p)] :=
     CodeAt.append_left (a := [(CInstr.bin op, p), (CInstr.jumpIfFalse outOff, p)]) (b := [(CInstr.pushRegs, p)]) hcj
-  have h7 : code[σ.pc + 7]? = some (CInstr.pushRegs, p) := hcj.tail.tail.head
+  have h7 : W.code[σ.pc + 7]? = some (CInstr.pushRegs, p) := hcj.tail.tail.head
   let σ1 : Vm := Vm.advance σ
   let σ2 : Vm := Vm.advance { σ1 with regs := { σ1.regs with b := σ1.regs.c } }
-  let σ3 : Vm := loadSt σ2 (s.env.getD x (zeroOf t))
-  have s1 : Vm.step code σ = .next σ1 := by simp only [Vm.step, h0]; rfl
-  have s2 : Vm.step code σ1 = .next σ2 := by simp only [Vm.step, σ1, Vm.advance, h1]; rfl
-  have hr2 : Rel sc pre below s σ2 := hr.same rfl rfl rfl rfl rfl rfl
-  have s3 : Steps code σ2 σ3 := var_steps code sc pre below s x t p σ2 hl hr2 hx
-  have pre3 : Steps code σ σ3 := Steps.cons s1 (Steps.cons s2 s3)
-  have hcmp := cmp_jump code op hop p outOff (σ.pc + 5) σ3 hcj2 rfl
-  have ha : σ3.regs.a = s.env.getD x (zeroOf t) := rfl
+  let σ3 : Vm := loadSt σ2 (s.get x t)
+  have s1 : Vm.step W.code σ = .next σ1 := by simp only [Vm.step, h0]; rfl
+  have s2 : Vm.step W.code σ1 = .next σ2 := by simp only [Vm.step, σ1, Vm.advance, h1]; rfl
+  have hr2 : Rel W sc pre below s σ2 := hr.same rfl rfl rfl rfl rfl rfl
+  have s3 : Steps W.code σ2 σ3 := var_steps W sc pre below s x t p σ2 hl hr2 hx
+  have pre3 : Steps W.code σ σ3 := Steps.cons s1 (Steps.cons s2 s3)
+  have hcmp := cmp_jump W.code op hop p outOff (σ.pc + 5) σ3 hcj2 rfl
+  have ha : σ3.regs.a = s.get x t := rfl
   have hb : σ3.regs.b = σ.regs.c := rfl
   rw [ha, hb] at hcmp
-  cases hcm : tryCmp (s.env.getD x (zeroOf t)) σ.regs.c with
+  cases hcm : tryCmp (s.get x t) σ.regs.c with
   | ok o =>
     simp only [hcm] at hcmp ⊢
     cases hrl : relHolds op o with
@@ -124,56 +124,59 @@ theorem for_head (code : Code) (sc : Scope) (pre below : List CtxState) (s : St)
     exact ErrsWith.of_steps pre3 hcmp
   | inexact => trivial
 
-/-- the state after the increment: the saved register frame is back, A holds the new counter, the counter is stored -/
-def tailSt (υ : Vm) (r : Regs) (rest : List Regs) (bo x : Nat) (v : Val) : Vm :=
-  { υ with pc := bo, regs := ⟨v, r.d, r.c, r.d⟩, regStack := rest,
-           ctx := modCur (fun vars => setVar vars x v) υ.ctx }
+/-- the state before the store of the increment: the saved register frame is back, A holds the new counter -/
+def tailPre (υ : Vm) (r : Regs) (rest : List Regs) (v : Val) : Vm :=
+  { υ with pc := υ.pc + 7, regs := ⟨v, r.d, r.c, r.d⟩, regStack := rest }
 
-theorem for_tail (code : Code) (sc : Scope) (pre below : List CtxState) (s : St) (x : Nat) (t : Ty) (p : Pos)
+/-- the state after the increment: the saved register frame is back, A holds the new counter, the counter is stored -/
+def tailSt (υ : Vm) (r : Regs) (rest : List Regs) (bo : Nat) (x : Var) (v : Val) : Vm :=
+  { storeSt (tailPre υ r rest v) x with pc := bo }
+
+theorem for_tail (W : World) (sc : Scope) (pre below : List CtxState) (s : St) (x : Var) (t : Ty) (p : Pos)
     (q bo : Nat) (υ : Vm) (r : Regs) (rest : List Regs)
-    (hc : CodeAt code q (forTailCode x t p bo)) (hpc : υ.pc = q) (hrs : υ.regStack = r :: rest)
-    (hr : Rel sc pre below s υ) (hx : sc.slots[x]? = some t) :
-    match (plus (s.env.getD x (zeroOf t)) r.d).bind (fun w => cast w t) with
-    | .ok v => Steps code υ (tailSt υ r rest bo x v)
-    | .err e => ErrsWith code υ (Vm.codeOf e) p υ.out
+    (hc : CodeAt W.code q (forTailCode x t p bo)) (hpc : υ.pc = q) (hrs : υ.regStack = r :: rest)
+    (hr : Rel W sc pre below s υ) (hx : sc.slots.get? x = some t) :
+    match (plus (s.get x t) r.d).bind (fun w => cast w t) with
+    | .ok v => Steps W.code υ (tailSt υ r rest bo x v)
+    | .err e => ErrsWith W.code υ (Vm.codeOf e) p υ.out
     | .inexact => True := by
   subst hpc
   simp only [forTailCode] at hc
-  have h0 : code[υ.pc]? = some (CInstr.popRegs, p) := hc.append_left.append_left.append_left.append_left.head
-  have hl : CodeAt code (υ.pc + 1) (loadVar x t p) := hc.append_left.append_left.append_left.append_right
-  have h3 : CodeAt code (υ.pc + 4) [(CInstr.copyDToB, p), (CInstr.bin .plus, p), (CInstr.cast t, p)] :=
+  have h0 : W.code[υ.pc]? = some (CInstr.popRegs, p) := hc.append_left.append_left.append_left.append_left.head
+  have hl : CodeAt W.code (υ.pc + 1) (loadVar x t p) := hc.append_left.append_left.append_left.append_right
+  have h3 : CodeAt W.code (υ.pc + 4) [(CInstr.copyDToB, p), (CInstr.bin .plus, p), (CInstr.cast t, p)] :=
     hc.append_left.append_left.append_right
-  have hs : CodeAt code (υ.pc + 7) (storeVar x t p) := hc.append_left.append_right
-  have hj : code[υ.pc + 9]? = some (CInstr.jump bo, p) := hc.append_right.head
+  have hs : CodeAt W.code (υ.pc + 7) (storeVar x t p) := hc.append_left.append_right
+  have hj : W.code[υ.pc + 9]? = some (CInstr.jump bo, p) := hc.append_right.head
   let υ1 : Vm := Vm.advance { υ with regs := r, regStack := rest }
-  let υ2 : Vm := loadSt υ1 (s.env.getD x (zeroOf t))
+  let υ2 : Vm := loadSt υ1 (s.get x t)
   let υ3 : Vm := Vm.advance { υ2 with regs := { υ2.regs with b := υ2.regs.d } }
-  have s1 : Vm.step code υ = .next υ1 := by simp only [Vm.step, h0, hrs]; rfl
-  have hr1 : Rel sc pre below s υ1 := hr.same rfl rfl rfl rfl rfl rfl
-  have s2 : Steps code υ1 υ2 := var_steps code sc pre below s x t p υ1 hl hr1 hx
-  have s3 : Vm.step code υ2 = .next υ3 := by
+  have s1 : Vm.step W.code υ = .next υ1 := by simp only [Vm.step, h0, hrs]; rfl
+  have hr1 : Rel W sc pre below s υ1 := hr.same rfl rfl rfl rfl rfl rfl
+  have s2 : Steps W.code υ1 υ2 := var_steps W sc pre below s x t p υ1 hl hr1 hx
+  have s3 : Vm.step W.code υ2 = .next υ3 := by
     have := h3.head
     simp only [Vm.step, υ2, loadSt, υ1, Vm.advance, this]; rfl
-  have s4 : Vm.step code υ3 = Vm.resA υ3 p (plus (s.env.getD x (zeroOf t)) r.d) := by
+  have s4 : Vm.step W.code υ3 = Vm.resA υ3 p (plus (s.get x t) r.d) := by
     have := h3.tail.head
     simp only [Vm.step, υ3, υ2, loadSt, υ1, Vm.advance, this]; rfl
-  have pre3 : Steps code υ υ3 := Steps.cons s1 (s2.trans (Steps.one s3))
-  cases hpl : plus (s.env.getD x (zeroOf t)) r.d with
+  have pre3 : Steps W.code υ υ3 := Steps.cons s1 (s2.trans (Steps.one s3))
+  cases hpl : plus (s.get x t) r.d with
   | ok w =>
     simp only [Res.bind]
     let υ4 : Vm := Vm.advance (Vm.setA υ3 w)
-    have s4' : Vm.step code υ3 = .next υ4 := by rw [s4, hpl]; rfl
-    have s5 : Vm.step code υ4 = Vm.resA υ4 p (cast w t) := by
+    have s4' : Vm.step W.code υ3 = .next υ4 := by rw [s4, hpl]; rfl
+    have s5 : Vm.step W.code υ4 = Vm.resA υ4 p (cast w t) := by
       have := h3.tail.tail.head
       simp only [Vm.step, υ4, υ3, υ2, loadSt, υ1, Vm.advance, Vm.setA, this]
     cases hcs : cast w t with
     | ok v =>
       simp only
       let υ5 : Vm := Vm.advance (Vm.setA υ4 v)
-      have s5' : Vm.step code υ4 = .next υ5 := by rw [s5, hcs]; rfl
-      have s6 := store_steps code x t p υ5 hs
+      have s5' : Vm.step W.code υ4 = .next υ5 := by rw [s5, hcs]; rfl
+      have s6 := store_steps W.code x t p υ5 hs
       refine (pre3.trans (Steps.cons s4' (Steps.cons s5' s6))).trans (Steps.one ?_)
-      have hj' : code[(storeSt υ5 x).pc]? = some (CInstr.jump bo, p) := hj
+      have hj' : W.code[(storeSt υ5 x).pc]? = some (CInstr.jump bo, p) := hj
       simp only [Vm.step, hj']
       rfl
     | err e =>
@@ -187,16 +190,16 @@ theorem for_tail (code : Code) (sc : Scope) (pre below : List CtxState) (s : St)
     rw [s4, hpl]; rfl
   | inexact => trivial
 
-/-- **the FOR rounds**: from the loop-head label with the limit in C and the step in D, the generated code does what
+/-- **the FOR rounds**: from the loop-head label with the limit in C and the step in D, the generated W.code does what
 `forIter` prescribes and leaves through the `out-of-for` address -/
-theorem for_loop (W : World) (fuel : Nat) (ih : IHle W fuel) (sc : Scope) (below : List CtxState) (x : Nat) (t : Ty)
+theorem for_loop (W : World) (fuel : Nat) (ih : IHle W fuel) (sc : Scope) (below : List CtxState) (x : Var) (t : Ty)
     (body : SStmt) (p : Pos) (sfx : String) (fd sd : Nat) (up : Bool) (bo outOff : Nat) (h sv : Val)
-    (hx : sc.slots[x]? = some t) (hwb : Wf W.sg sc body)
+    (hx : sc.slots.get? x = some t) (hwb : Wf W.sg sc body)
     (hc : CodeAt W.code bo (forBody sfx x t (compileStmt W.lay (stepSuffix sfx up) (fd + 1) sd (bo + 8) body) up p bo
       outOff)) :
-    ∀ f, f ≤ fuel → ∀ (σ : Vm) (s : St), σ.pc = bo → σ.regs.c = h → σ.regs.d = sv → Rel sc [] below s σ →
+    ∀ f, f ≤ fuel → ∀ (σ : Vm) (s : St), σ.pc = bo → σ.regs.c = h → σ.regs.d = sv → Rel W sc [] below s σ →
       ActInv sc fd sd σ →
-      StmtPost W.code sc below fd sd 0 outOff σ (Proc.Ref.forIter W.P f x t h sv up (desugar body) p s) := by
+      StmtPost W sc below fd sd 0 outOff σ (Proc.Ref.forIter W.P f x t h sv up (desugar body) p s) := by
   rw [forBody_split] at hc
   have hch := hc.append_left
   have hlenH : (forHeadCode (labelName (if up then "positive-loop" else "negative-loop") p sfx) x t
@@ -215,9 +218,9 @@ theorem for_loop (W : World) (fuel : Nat) (ih : IHle W fuel) (sc : Scope) (below
   | zero => intro _ σ s _ _ _ _ _; simp only [Proc.Ref.forIter, StmtPost]
   | succ f' ihf =>
     intro hf σ s hpc hC hD hr ha
-    have hhead := for_head W.code sc [] below s _ x t _ hop p bo outOff h sv σ hch hpc hC hD hr hx
+    have hhead := for_head W sc [] below s _ x t _ hop p bo outOff h sv σ hch hpc hC hD hr hx
     simp only [Proc.Ref.forIter, Proc.Ref.relTest]
-    cases hcm : tryCmp (s.env.getD x (zeroOf t)) h with
+    cases hcm : tryCmp (s.get x t) h with
     | err e =>
       simp only [hcm] at hhead ⊢
       simp only [StmtPost]
@@ -235,7 +238,7 @@ theorem for_loop (W : World) (fuel : Nat) (ih : IHle W fuel) (sc : Scope) (below
         simp only [hrel, if_true] at hhead ⊢
         obtain ⟨a, st⟩ := hhead
         let τ0 : Vm := { σ with pc := bo + 8, regs := Regs.new, regStack := ⟨a, h, h, sv⟩ :: σ.regStack }
-        have hrel0 : Rel sc [] below s τ0 := hr.same rfl rfl rfl rfl rfl rfl
+        have hrel0 : Rel W sc [] below s τ0 := hr.same rfl rfl rfl rfl rfl rfl
         have ha0 : ActInv sc (fd + 1) sd τ0 := ha.enterFor ⟨a, h, h, sv⟩ rfl rfl rfl rfl id
         have hb := (ih f' (by omega)).stmt sc body (stepSuffix sfx up) (fd + 1) sd (bo + 8) below s τ0 hcb rfl hrel0
           hwb ha0
@@ -244,22 +247,28 @@ theorem for_loop (W : World) (fuel : Nat) (ih : IHle W fuel) (sc : Scope) (below
         cases o1 with
         | normal =>
           obtain ⟨υ, st2, hp2, hrel2, hss2⟩ := hb
-          have htail := for_tail W.code sc [] below s1 x t p (bo + 8 + sizeStmt (fd + 1) sd body) bo υ ⟨a, h, h, sv⟩
+          have htail := for_tail W sc [] below s1 x t p (bo + 8 + sizeStmt (fd + 1) sd body) bo υ ⟨a, h, h, sv⟩
             σ.regStack hct hp2 hss2.regStack hrel2 hx
           simp only [] at htail ⊢
-          cases hinc : (plus (s1.env.getD x (zeroOf t)) sv).bind (fun v => cast v t) with
+          cases hinc : (plus (s1.get x t) sv).bind (fun v => cast v t) with
           | ok v =>
             simp only [hinc] at htail ⊢
             have hv : v.tag = t := by
-              cases hpl : plus (s1.env.getD x (zeroOf t)) sv with
+              cases hpl : plus (s1.get x t) sv with
               | ok w => rw [hpl] at hinc; exact RbThm.C01Sim.SimRead.cast_tag _ _ _ hinc
               | err e => rw [hpl] at hinc; cases hinc
               | inexact => rw [hpl] at hinc; cases hinc
             let υ1 : Vm := tailSt υ ⟨a, h, h, sv⟩ σ.regStack bo x v
-            have hrel3 : Rel sc [] below (s1.set x v) υ1 := hrel2.store hx hv rfl rfl rfl rfl rfl rfl
-            have hss3 : SameStacks σ υ1 :=
+            have hrelp : Rel W sc [] below s1 (tailPre υ ⟨a, h, h, sv⟩ σ.regStack v) :=
+              hrel2.same rfl rfl rfl rfl rfl rfl
+            have hrel3 : Rel W sc [] below (s1.set x v) υ1 := (hrelp.storeSt hx hv).setPc bo
+            have hssp : SameStacks σ (tailPre υ ⟨a, h, h, sv⟩ σ.regStack v) :=
               ⟨hss2.vals, hss2.paths, rfl, hss2.rets, hss2.marks, hss2.trace, hss2.skip⟩
-            have hloop := ihf (by omega) υ1 (s1.set x v) rfl rfl rfl hrel3 (ha.of_same hss3)
+            have hss3 : SameStacks σ υ1 :=
+              (hssp.trans (SameStacks.storeSt _ x)).trans ⟨rfl, rfl, rfl, rfl, rfl, rfl, id⟩
+            have hregs : υ1.regs = ⟨v, sv, h, sv⟩ := storeSt_regs _ x
+            have hloop := ihf (by omega) υ1 (s1.set x v) rfl (by rw [hregs]) (by rw [hregs]) hrel3
+              (ha.of_same hss3)
             exact StmtPost.of_steps ((st.trans st2).trans htail) hss3 hloop
           | err e =>
             simp only [hinc] at htail ⊢
@@ -277,17 +286,17 @@ theorem for_loop (W : World) (fuel : Nat) (ih : IHle W fuel) (sc : Scope) (below
         | illFormed => exact hb
 
 /-- leaving the loop: the rounds end at the `out-of-for` label, one more step reaches the end of the statement -/
-theorem for_finish (code : Code) (sc : Scope) (below : List CtxState) (fd sd : Nat) (σ σd : Vm)
+theorem for_finish (W : World) (sc : Scope) (below : List CtxState) (fd sd : Nat) (σ σd : Vm)
     (outOff off n : Nat) (lbl : String) (p : Pos)
-    (pre : Steps code σ σd) (hss : SameStacks σ σd)
-    (hlab : code[outOff]? = some (CInstr.label lbl, p)) (hn : off + n = outOff + 1) (r : St × Outcome)
-    (h : StmtPost code sc below fd sd 0 outOff σd r) : StmtPost code sc below fd sd n off σ r := by
+    (pre : Steps W.code σ σd) (hss : SameStacks σ σd)
+    (hlab : W.code[outOff]? = some (CInstr.label lbl, p)) (hn : off + n = outOff + 1) (r : St × Outcome)
+    (h : StmtPost W sc below fd sd 0 outOff σd r) : StmtPost W sc below fd sd n off σ r := by
   refine StmtPost.of_steps pre hss ?_
   obtain ⟨s', o⟩ := r
   cases o with
   | normal =>
     obtain ⟨τ, st, hp, hrel, hs⟩ := h
-    have s2 : Vm.step code τ = .next (Vm.advance τ) := by
+    have s2 : Vm.step W.code τ = .next (Vm.advance τ) := by
       simp only [Vm.step, hp, Nat.add_zero, hlab]
     exact ⟨Vm.advance τ, st.trans (Steps.one s2), by simp [Vm.advance, hp]; omega, hrel.advance,
       hs.trans ⟨rfl, rfl, rfl, rfl, rfl, rfl, id⟩⟩
@@ -442,12 +451,12 @@ end SimFor
 
 open SimFor in
 /-- **FOR … NEXT**, with and without STEP -/
-theorem case_for (W : World) (fuel : Nat) (ih : IHle W fuel) (x : Nat) (t : Ty) (lo hi : Proc.Expr)
+theorem case_for (W : World) (fuel : Nat) (ih : IHle W fuel) (x : Var) (t : Ty) (lo hi : Proc.Expr)
     (step : Option Proc.Expr) (body : SStmt) (p : Pos)
     (sc : Scope) (sfx : String) (fd sd off : Nat) (below : List CtxState) (s : St) (σ : Vm)
     (hc : CodeAt W.code off (compileStmt W.lay sfx fd sd off (.forLoop x t lo hi step body p))) (hpc : σ.pc = off)
-    (hr : Rel sc [] below s σ) (hw : Wf W.sg sc (.forLoop x t lo hi step body p)) (ha : ActInv sc fd sd σ) :
-    StmtPost W.code sc below fd sd (sizeStmt fd sd (.forLoop x t lo hi step body p)) off σ
+    (hr : Rel W sc [] below s σ) (hw : Wf W.sg sc (.forLoop x t lo hi step body p)) (ha : ActInv sc fd sd σ) :
+    StmtPost W sc below fd sd (sizeStmt fd sd (.forLoop x t lo hi step body p)) off σ
       (Proc.Ref.exec W.P (fuel + 1) (desugar (.forLoop x t lo hi step body p)) s) := by
   simp only [Wf] at hw
   obtain ⟨hx, hwlo, hwhi, hwstep, hwb⟩ := hw
@@ -477,7 +486,7 @@ theorem case_for (W : World) (fuel : Nat) (ih : IHle W fuel) (x : Nat) (t : Ty) 
     have hssb : SameStacks σ (storeSt τ1 x) := hss1.trans (SameStacks.storeSt τ1 x)
     -- the limit
     have hehi := exprTo_correct' W fuel ih sc hi t (off + sizeExprTo lo t + 2) [] below (s1.set x l) (storeSt τ1 x)
-      hchi (by simp only [storeSt, hp1]) hrel1' hwhi
+      hchi (by rw [storeSt_pc, hp1]) hrel1' hwhi
     simp only
     generalize Proc.Ref.evalTo W.P fuel hi t (s1.set x l) = r2 at hehi ⊢
     obtain ⟨s2, rv2⟩ := r2
@@ -494,10 +503,10 @@ theorem case_for (W : World) (fuel : Nat) (ih : IHle W fuel) (x : Nat) (t : Ty) 
         have hhd := hdr_none W.code p _ (off + sizeExprTo lo t + 2 + sizeExprTo hi t) _ _ τ2 hrest.append_left.append_left rfl hp2
         let σ5 : Vm := { τ2 with pc := (off + sizeExprTo lo t + 2 + sizeExprTo hi t) + 6, regs := ⟨.int 1, τ2.regs.b, τ2.regs.a, .int 1⟩ }
         have hss5 : SameStacks σ σ5 := hss3.trans ⟨rfl, rfl, rfl, rfl, rfl, rfl, id⟩
-        have hr5 : Rel sc [] below s2 σ5 := hrel2.same rfl rfl rfl rfl rfl rfl
+        have hr5 : Rel W sc [] below s2 σ5 := hrel2.same rfl rfl rfl rfl rfl rfl
         have hloop := for_loop W fuel ih sc below x t body p sfx fd sd true _ _ h (.int 1) hx hwb
           hrest.append_left.append_right fuel (Nat.le_refl _) σ5 s2 rfl ha2 rfl hr5 (ha.of_same hss5)
-        refine for_finish W.code sc below fd sd σ σ5 _ off _ (labelName "out-of-for" p sfx) p (pre3.trans hhd) hss5
+        refine for_finish W sc below fd sd σ σ5 _ off _ (labelName "out-of-for" p sfx) p (pre3.trans hhd) hss5
           ?_ ?_ _ hloop
         · have := hrest.append_right.head
           simp only [List.length_append, List.length_cons, List.length_nil, len_forBody, len_stmt] at this
@@ -522,7 +531,7 @@ theorem case_for (W : World) (fuel : Nat) (ih : IHle W fuel) (x : Nat) (t : Ty) 
         have sp : Vm.step W.code τ2 = .next τ2' := by
           have : W.code[τ2.pc]? = some (CInstr.pushA, p) := by rw [hp2]; exact hpush
           simp only [Vm.step, this]; rfl
-        have hrel2' : Rel sc [] below s2 τ2' := hrel2.same rfl rfl rfl rfl rfl rfl
+        have hrel2' : Rel W sc [] below s2 τ2' := hrel2.same rfl rfl rfl rfl rfl rfl
         have hexp := ih.self.expr sc se ((off + sizeExprTo lo t + 2 + sizeExprTo hi t) + 1) [] below s2 τ2' hcse
           (by simp only [τ2', Vm.advance, hp2]) hrel2' hwse
         generalize Proc.Ref.eval W.P fuel se s2 = r3 at hexp ⊢
@@ -545,7 +554,7 @@ theorem case_for (W : World) (fuel : Nat) (ih : IHle W fuel) (x : Nat) (t : Ty) 
           have pre5 : Steps W.code σ σ5 := (pre3.trans (Steps.cons sp st5)).trans hhd
           have hss5 : SameStacks σ σ5 :=
             hss3.trans ⟨rfl, hss4.paths, hss4.regStack, hss4.rets, hss4.marks, hss4.trace, hss4.skip⟩
-          have hr5 : Rel sc [] below s3 σ5 := hrel3.same rfl rfl rfl rfl rfl rfl
+          have hr5 : Rel W sc [] below s3 σ5 := hrel3.same rfl rfl rfl rfl rfl rfl
           have hsign := for_sign W.code p se.pos _ _ _ ((off + sizeExprTo lo t + 2 + sizeExprTo hi t) + 1 + sizeExpr se + 6) _ _ σ5 hblock.append_right
             (CodeAt.at h5.tail (by simp only [List.length_append, List.length_cons, List.length_nil, len_forBody, len_stmt, len_expr, sizeForBody]; omega))
             (CodeAt.at h4.tail (by simp only [List.length_append, List.length_cons, List.length_nil, len_forBody, len_stmt, len_expr, sizeForBody]; omega)) rfl
@@ -573,11 +582,11 @@ theorem case_for (W : World) (fuel : Nat) (ih : IHle W fuel) (x : Nat) (t : Ty) 
               let σ6 : Vm := { σ5 with pc := (off + sizeExprTo lo t + 2 + sizeExprTo hi t) + 1 + sizeExpr se + 6 + 5, regs := ⟨a, .int 0, h, sv⟩ }
               have st6' : Steps W.code σ5 σ6 := Steps.cast st6 (by simp only [σ6, σ5, ha3])
               have hss6 : SameStacks σ σ6 := hss5.trans ⟨rfl, rfl, rfl, rfl, rfl, rfl, id⟩
-              have hr6 : Rel sc [] below s3 σ6 := hr5.same rfl rfl rfl rfl rfl rfl
+              have hr6 : Rel W sc [] below s3 σ6 := hr5.same rfl rfl rfl rfl rfl rfl
               have hloop := for_loop W fuel ih sc below x t body p sfx fd sd false _ _ h sv hx hwb
                 (CodeAt.at hneg (by simp only [List.length_append, List.length_cons, List.length_nil, len_forBody, len_stmt, len_expr, sizeForBody]; omega))
                 fuel (Nat.le_refl _) σ6 s3 (by dsimp only [σ6] <;> omega) rfl rfl hr6 (ha.of_same hss6)
-              refine for_finish W.code sc below fd sd σ σ6 _ off _ (labelName "out-of-for" p sfx) p (pre5.trans st6')
+              refine for_finish W sc below fd sd σ σ6 _ off _ (labelName "out-of-for" p sfx) p (pre5.trans st6')
                 hss6 hlab ?_ _ hloop
               simp only [sizeStmt, sizeForBody]; omega
             | gt =>
@@ -586,11 +595,11 @@ theorem case_for (W : World) (fuel : Nat) (ih : IHle W fuel) (x : Nat) (t : Ty) 
               let σ6 : Vm := { σ5 with pc := (off + sizeExprTo lo t + 2 + sizeExprTo hi t) + 1 + sizeExpr se + 11 + sizeForBody fd sd body + 1 + 4, regs := ⟨a, .int 0, h, sv⟩ }
               have st6' : Steps W.code σ5 σ6 := Steps.cast st6 (by simp only [σ6, σ5, ha3])
               have hss6 : SameStacks σ σ6 := hss5.trans ⟨rfl, rfl, rfl, rfl, rfl, rfl, id⟩
-              have hr6 : Rel sc [] below s3 σ6 := hr5.same rfl rfl rfl rfl rfl rfl
+              have hr6 : Rel W sc [] below s3 σ6 := hr5.same rfl rfl rfl rfl rfl rfl
               have hloop := for_loop W fuel ih sc below x t body p sfx fd sd true _ _ h sv hx hwb
                 (CodeAt.at hpos (by simp only [List.length_append, List.length_cons, List.length_nil, len_forBody, len_stmt, len_expr, sizeForBody]; omega))
                 fuel (Nat.le_refl _) σ6 s3 (by dsimp only [σ6] <;> omega) rfl rfl hr6 (ha.of_same hss6)
-              refine for_finish W.code sc below fd sd σ σ6 _ off _ (labelName "out-of-for" p sfx) p (pre5.trans st6')
+              refine for_finish W sc below fd sd σ σ6 _ off _ (labelName "out-of-for" p sfx) p (pre5.trans st6')
                 hss6 hlab ?_ _ hloop
               simp only [sizeStmt, sizeForBody]; omega
             | eq =>
